@@ -69,12 +69,19 @@ class StubDataHandler(object):
 
 
 def main(handler):
+    import contextlib
+    import io
     cases = json.load(sys.stdin)
     out = []
-    for c in cases:
+    for i, c in enumerate(cases):
+        # event printing is a global setting (on by default in qstrader): every third case runs with it on,
+        # its output discarded - results must not depend on it
+        settings.set_print_events(i % 3 == 1)
         try:
-            out.append(handler(c))
+            with contextlib.redirect_stdout(io.StringIO()):
+                out.append(handler(c))
         except Exception as e:  # harness-level failure: reported, never silently dropped
             import traceback
             out.append({'worker_error': traceback.format_exc()[-1500:]})
+    settings.set_print_events(False)
     json.dump(out, sys.stdout)
